@@ -256,7 +256,9 @@ fn main() {
                     3 => rng.below(40),
                     _ => rng.below(150),
                 } as usize;
-                let oids: Vec<(String, Vec<u8>)> = (0..noids).map(|_| gen_oid(&mut rng, 14)).collect();
+                // mostly short OIDs, sometimes long ones (>= 128 content octets: long-form OID length inside the varbind)
+                let maxa = if rng.below(6) == 0 { 128 } else { 14 };
+                let oids: Vec<(String, Vec<u8>)> = (0..noids).map(|_| gen_oid(&mut rng, maxa)).collect();
                 let rid = (rng.next() & 0x7fffffff) as i64 >> rng.below(31);
                 let mr = (rng.next() & 0x7fffffff) as i64 >> rng.below(31);
                 let vars: Vec<SnmpOid> = oids.iter().map(|(_, c)| SnmpOid::from(c.clone())).collect();
